@@ -159,6 +159,27 @@ def harvest_sources(seed, res):
                 res.add_set("harvested_boundaries", "%s.from_Matrix axis=%s theta=%r|%r" % (to, np.round(ax, 3).tolist(), lo, hi))
                 for t in (lo, hi):
                     extra.append(ax * t)
+    # every converter between two parameterisations: members next to every outcome change along the rotation angle (signature flips,
+    # windows that open and close between grid neighbours, pieces of sign / fabs / floor), three axes
+    ts = [0.0, 1e-6, 1e-3, 0.05, 0.2, 0.5, 1.0, 1.5, 2.0, 2.5, 3.0, math.pi]
+    for to in KINDS:
+        for frm in KINDS:
+            if frm == to:
+                continue
+            f = conv(to, frm)
+            if f is None:
+                continue
+            prog = sxvm.compile_fn(f)
+            for ax in alpha.axes(seed)[:7:3]:
+                def mk(t, ax=ax, frm=frm):
+                    return [list(alpha.rot_reps(frm, ax * t)[0][1])]
+                try:
+                    mem = harvest.ray_members(prog, mk, ts, per_cell=8, cap=24)
+                except Exception:  # noqa: BLE001 - a representation without a canonical member on this ray
+                    continue
+                for t in mem:
+                    res.add_set("harvested_boundaries", "%s.from_%s theta=%r" % (to, frm, t))
+                    extra.append(ax * t)
     return extra
 
 
